@@ -196,7 +196,7 @@ func (r *Runner) Run() {
 	}
 	for step := 0; step < nSteps && r.Fail == nil && r.Inconclusive == ""; step++ {
 		if !r.P.Alive() {
-			r.fail(model.Violation{Props: []string{"C08", "C09"}, Clause: "process/exited", Detail: "the server process ended: " + r.P.ExitInfo()}, r.P.LogTail(6000))
+			r.fail(model.Violation{Props: []string{"C08", "C09"}, Clause: "process/exited", Detail: "the server process ended: " + r.P.ExitInfo()}, r.P.CrashHead(5000))
 			return
 		}
 		var a Action
@@ -610,7 +610,7 @@ func (r *Runner) departureBarrier(cl *d.Client) bool {
 		ci, err := r.P.Conns(cl.CID)
 		if err != nil {
 			if !r.P.Alive() {
-				r.fail(model.Violation{Props: []string{"C08", "C09"}, Clause: "process/exited", Detail: "the server process ended: " + r.P.ExitInfo()}, r.P.LogTail(6000))
+				r.fail(model.Violation{Props: []string{"C08", "C09"}, Clause: "process/exited", Detail: "the server process ended: " + r.P.ExitInfo()}, r.P.CrashHead(5000))
 				return false
 			}
 			r.Inconclusive = "admin endpoint failed: " + err.Error()
@@ -629,7 +629,7 @@ func (r *Runner) departureBarrier(cl *d.Client) bool {
 
 func (r *Runner) frameStall(sid, reason string, err error) {
 	if !r.P.Alive() {
-		r.fail(model.Violation{Props: []string{"C08", "C09"}, Clause: "process/exited", Detail: "the server process ended: " + r.P.ExitInfo()}, r.P.LogTail(6000))
+		r.fail(model.Violation{Props: []string{"C08", "C09"}, Clause: "process/exited", Detail: "the server process ended: " + r.P.ExitInfo()}, r.P.CrashHead(5000))
 		return
 	}
 	r.wedge(nil, fmt.Sprintf("frame worker of session %s made no progress (%s %v)", sid, reason, err))
@@ -640,7 +640,7 @@ func (r *Runner) frameStall(sid, reason string, err error) {
 // make it a violation; anything else is inconclusive.
 func (r *Runner) wedge(cl *d.Client, what string) {
 	if !r.P.Alive() {
-		r.fail(model.Violation{Props: []string{"C08", "C09"}, Clause: "process/exited", Detail: "the server process ended: " + r.P.ExitInfo() + " (" + what + ")"}, r.P.LogTail(6000))
+		r.fail(model.Violation{Props: []string{"C08", "C09"}, Clause: "process/exited", Detail: "the server process ended: " + r.P.ExitInfo() + " (" + what + ")"}, r.P.CrashHead(5000))
 		return
 	}
 	d1, e1 := r.P.Goroutines()
